@@ -227,9 +227,14 @@ static coroutine::Task<> frame_body(World* w, int h) {
     int tid0 = vrt_tid();
     vrt_event("wait %d %d %lu", h, wt.f, (unsigned long)wt.v);
     co_await w->fut[wt.f]->wait(wt.v).on_suspend([w, h, r](CoFutex::Cancellation&& c) {
+      // a waker may already have resumed the coroutine (the awaitable and this closure are gone
+      // then): locals only after the first statement
+      FrameSt* fs = w->fr[h].get();
+      int lh = h;
+      size_t lr = r;
       VId id = c._id;
-      vrt_event("token %d %u %u", h, id.value, id.version);
-      w->fr[h]->tok[r].store(id.version_and_value + 1, std::memory_order_release);
+      vrt_event("token %d %u %u", lh, id.value, id.version);
+      fs->tok[lr].store(id.version_and_value + 1, std::memory_order_release);
     });
     if (me.state != F_WAITING) vrt_event("ORACLE double-resume frame %d continued while not waiting (state %d)", h, me.state);
     me.state = F_RUNNING;
@@ -480,6 +485,353 @@ static void run_futex(uint64_t seed, const char* corpus) {
   if (!lost) delete w;
 }
 
+// ---------------------------------------------------------------------------------------------
+// cancel mode: `co_await Cancellable<Task<int>>(inner).on_suspend(cb)`; completion of `inner` races with
+// cancellation through the token.  Decisive atomic = take CAS on the DepositBox<BasicCancellable*> slot
+// (named `cver<n>`); L2 events for everything else.
+using CBox = DepositBox<BasicCancellable*>;
+constexpr int CK = 16;
+
+static void reset_cbox(int minted) {
+  auto& box = CBox::instance();
+  auto& al = box._slot_id_allocator;
+  al._free_next_value.ensure(CK + 15);
+  for (int i = 0; i < CK + 16; ++i) {
+    al._free_next_value.ensure(i).store(i + 1 < minted ? i + 1 : IdAllocator<uint32_t>::FREE_LIST_TAIL, std::memory_order_relaxed);
+    auto& s = box._slots.ensure(i);
+    s.version.store(0, std::memory_order_relaxed);
+    s.object.emplace(nullptr);
+  }
+  al._next_value = minted;
+  VId head;
+  head.value = minted > 0 ? 0 : IdAllocator<uint32_t>::FREE_LIST_TAIL;
+  head.version = VER0;
+  al._free_head = head;
+}
+NOTSAN static int raw_callocated() {
+  auto& al = CBox::instance()._slot_id_allocator;
+  uint32_t nv = __atomic_load_n(&al._next_value, __ATOMIC_RELAXED);
+  uint64_t h = __atomic_load_n(&al._free_head.version_and_value, __ATOMIC_RELAXED);
+  uint32_t v = (uint32_t)h;
+  int len = 0;
+  while (v != IdAllocator<uint32_t>::FREE_LIST_TAIL && len < 100000) {
+    ++len;
+    v = __atomic_load_n(reinterpret_cast<uint32_t*>(&al._free_next_value.ensure(v)), __ATOMIC_RELAXED);
+  }
+  return (int)nv - len;
+}
+
+struct CInst {
+  int exec = 0;        // executor of the awaiting coroutine
+  int exec2 = 0;       // executor of the inner task
+  bool gated = true;   // inner waits on its gate before finishing
+  bool sync_cancel = false;   // the on_suspend callback cancels at once
+  volatile int state = F_NEW;
+  volatile int resumes = 0;
+  volatile int result = -2;   // -1 = empty
+  std::atomic<uint64_t> tok {0};
+  std::atomic<int> cancel_won {0};
+};
+enum COpKind { CO_CANCEL, CO_COMPLETE, CO_YIELD, CO_NAP };
+struct COp {
+  COpKind k;
+  int i;
+};
+struct CWorld {
+  std::vector<std::unique_ptr<CInst>> inst;
+  std::vector<std::unique_ptr<CoFutex>> gate;
+  std::vector<std::vector<COp>> clients;
+  Execs ex;
+};
+
+static coroutine::Task<int> c_inner(CWorld* w, int i) {
+  vrt_event("istart %d e%d", i, w->ex.current());
+  if (w->inst[i]->gated) co_await w->gate[i]->wait(0);
+  vrt_event("ifinish %d", i);
+  co_return 100 + i;
+}
+
+static coroutine::Task<> c_outer(CWorld* w, int i) {
+  CInst& me = *w->inst[i];
+  me.state = F_RUNNING;
+  vrt_event("cstart %d e%d", i, w->ex.current());
+  auto inner = c_inner(w, i);
+  inner.set_executor(w->ex.at(me.exec2));
+  me.state = F_WAITING;
+  vrt_event("cwait %d", i);
+  auto result = co_await Cancellable<coroutine::Task<int>>(std::move(inner)).on_suspend([w, i](BasicCancellable::Cancellation&& c) {
+    // once the token is published a concurrent cancellation may resume the awaiter, which destroys the
+    // Cancellable and with it this closure: copy everything to locals first
+    CWorld* lw = w;
+    int li = i;
+    CInst* inst = lw->inst[li].get();
+    bool sync = inst->sync_cancel;
+    BasicCancellable::Cancellation tok = c;
+    VId id = tok._id;
+    vrt_event("ctoken %d %u %u", li, id.value, id.version);
+    inst->tok.store(id.version_and_value + 1, std::memory_order_release);
+    if (sync) {
+      vrt_event("call ccancel %d %u %u", li, id.value, id.version);
+      bool ok = tok();
+      if (ok) inst->cancel_won.fetch_add(1, std::memory_order_relaxed);
+      vrt_event("ret ccancel %d", ok ? 1 : 0);
+    }
+  });
+  if (me.state != F_WAITING) vrt_event("ORACLE double-resume cancellable awaiter %d continued while not waiting", i);
+  me.state = F_RUNNING;
+  me.resumes = me.resumes + 1;
+  me.result = result ? *result : -1;
+  int e = w->ex.current();
+  if (result) vrt_event("cresumed %d e%d value %d", i, e, *result);
+  else vrt_event("cresumed %d e%d empty", i, e);
+  if (e != me.exec) vrt_event("ORACLE wrong-executor cancellable awaiter %d resumed on e%d, bound to e%d", i, e, me.exec);
+  if (result && *result != 100 + i) vrt_event("ORACLE wrong-value awaiter %d got %d", i, *result);
+  me.state = F_DONE;
+  vrt_event("cdone %d", i);
+  co_return;
+}
+
+static void c_complete(CWorld* w, int i) {
+  vrt_event("call complete %d", i);
+  w->gate[i]->atomic_value().store(1, std::memory_order_release);
+  w->gate[i]->wake_all();
+  vrt_event("ret complete");
+}
+
+static void run_cancel(uint64_t seed) {
+  CWorld* w = new CWorld;
+  Rng rng(seed);
+  int npools = (int)rng.below(3);
+  int n = 1 + (int)rng.below(3);
+  int minted = (int[]) {0, 1, CK}[rng.below(3)];
+  for (int i = 0; i < n; ++i) {
+    w->inst.emplace_back(new CInst);
+    CInst& c = *w->inst.back();
+    c.exec = (int)rng.below(npools + 1);
+    c.exec2 = (int)rng.below(npools + 1);
+    c.gated = rng.below(5) != 0;
+    c.sync_cancel = c.exec != 0 && rng.below(6) == 0;
+    w->gate.emplace_back(new CoFutex);
+  }
+  int nclients = 1 + (int)rng.below(3);
+  for (int c = 0; c < nclients; ++c) {
+    std::vector<COp> ops;
+    int nops = 1 + (int)rng.below(5);
+    for (int k = 0; k < nops; ++k) {
+      int r = (int)rng.below(100);
+      COp op;
+      op.k = r < 45 ? CO_CANCEL : r < 80 ? CO_COMPLETE : r < 90 ? CO_YIELD : CO_NAP;
+      op.i = (int)rng.below(n);
+      ops.push_back(op);
+    }
+    w->clients.push_back(ops);
+  }
+  reset_box(K);
+  reset_cbox(minted);
+  vrt_unname_all();
+  for (int i = 0; i < CK + 16; ++i) vrt_namef(&CBox::instance()._slots.ensure(i).version, 4, "cver%d", i);
+  vrt_begin(seed);
+  printf("RUN %lu mode=cancel awaiters=%d pools=%d clients=%d minted=%d\n", (unsigned long)seed, n, npools, nclients, minted);
+  w->ex.start(npools, rng);
+  int base = raw_callocated();
+  for (int i = 0; i < n; ++i) {
+    vrt_event("cspawn %d e%d", i, w->inst[i]->exec);
+    w->ex.at(w->inst[i]->exec).submit(c_outer(w, i));
+  }
+  {
+    std::vector<std::thread> ts;
+    for (auto& ops : w->clients) {
+      ts.emplace_back([w, &ops] {
+        for (auto& op : ops) {
+          switch (op.k) {
+            case CO_CANCEL: {
+              uint64_t t = w->inst[op.i]->tok.load(std::memory_order_acquire);
+              if (t == 0) {
+                sched_yield();
+                break;
+              }
+              VId id(t - 1);
+              vrt_event("call ccancel %d %u %u", op.i, id.value, id.version);
+              bool ok = BasicCancellable::cancel(id);
+              if (ok) w->inst[op.i]->cancel_won.fetch_add(1, std::memory_order_relaxed);
+              vrt_event("ret ccancel %d", ok ? 1 : 0);
+              break;
+            }
+            case CO_COMPLETE:
+              c_complete(w, op.i);
+              break;
+            case CO_YIELD:
+              sched_yield();
+              break;
+            case CO_NAP:
+              usleep(50);
+              break;
+          }
+        }
+      });
+    }
+    for (auto& t : ts) t.join();
+  }
+  auto all = [&] {
+    for (auto& c : w->inst)
+      if (c->state != F_DONE) return false;
+    return true;
+  };
+  for (int round = 0; round < 8; ++round) {
+    for (int i = 0; i < n; ++i) c_complete(w, i);
+    usleep(1000);
+    if (all()) break;
+  }
+  usleep(1000);
+  bool lost = false;
+  for (int i = 0; i < n; ++i) {
+    CInst& c = *w->inst[i];
+    if (c.state != F_DONE) {
+      lost = true;
+      vrt_event("ORACLE lost cancellable awaiter %d never resumed although its awaitable completed", i);
+      continue;
+    }
+    if (c.resumes != 1) vrt_event("ORACLE resume-count awaiter %d resumed %d times", i, c.resumes);
+    int won = c.cancel_won.load(std::memory_order_relaxed);
+    if (won > 1) vrt_event("ORACLE two-cancel-winners awaiter %d: %d cancellations reported success", i, won);
+    if ((c.result == -1) != (won == 1)) vrt_event("ORACLE empty-iff-cancelled awaiter %d result %d but %d cancellations won", i, c.result, won);
+  }
+  w->ex.stop();
+  int leaked = raw_callocated() - base;
+  vrt_event("cslots allocated %d", leaked);
+  if (!lost && leaked != 0) vrt_event("ORACLE leak %d cancellable slots still allocated", leaked);
+  vrt_event("stats steps %lu switches %lu", vrt_steps(), vrt_switches());
+  vrt_end();
+  vrt_dump(stdout);
+  if (!lost) delete w;
+}
+
+// ---------------------------------------------------------------------------------------------
+// await mode: a task awaits another task (bound to the same / another / no executor) or a babylon
+// Future whose value is set by a client thread at an arbitrary moment (completion racing with the
+// registration of the awaiter).  L2 events + oracle.
+struct AInst {
+  int exec = 0;
+  int kind = 0;        // 0: await task, 1: await future, 2: await task that awaits a future
+  int exec2 = -1;      // executor of the inner task, -1 = not set (inherits)
+  volatile int state = F_NEW;
+  volatile int resumes = 0;
+  Promise<int> promise;
+  Future<int> future;
+};
+struct AWorld {
+  std::vector<std::unique_ptr<AInst>> inst;
+  std::vector<std::vector<int>> clients;   // which promises to set, in order
+  Execs ex;
+};
+
+static coroutine::Task<int> a_inner(AWorld* w, int i) {
+  AInst& me = *w->inst[i];
+  int e = w->ex.current();
+  vrt_event("istart %d e%d", i, e);
+  int want = me.exec2 >= 0 ? me.exec2 : me.exec;
+  if (e != want) vrt_event("ORACLE wrong-executor inner task %d runs on e%d, bound to e%d", i, e, want);
+  int v = 0;
+  if (me.kind == 2) {
+    vrt_event("iawait %d future", i);
+    v = co_await me.future;
+    int e2 = w->ex.current();
+    vrt_event("iresumed %d e%d %d", i, e2, v);
+    if (e2 != want) vrt_event("ORACLE wrong-executor inner task %d resumed on e%d, bound to e%d", i, e2, want);
+  }
+  vrt_event("ifinish %d", i);
+  co_return 1000 + i + v;
+}
+
+static coroutine::Task<> a_outer(AWorld* w, int i) {
+  AInst& me = *w->inst[i];
+  me.state = F_RUNNING;
+  vrt_event("astart %d e%d", i, w->ex.current());
+  int got = 0, expect = 0;
+  me.state = F_WAITING;
+  if (me.kind == 1) {
+    vrt_event("await %d future", i);
+    got = co_await me.future;
+    expect = 7 + i;
+  } else {
+    auto t = a_inner(w, i);
+    if (me.exec2 >= 0) t.set_executor(w->ex.at(me.exec2));
+    vrt_event("await %d task", i);
+    got = co_await std::move(t);
+    expect = 1000 + i + (me.kind == 2 ? 7 + i : 0);
+  }
+  if (me.state != F_WAITING) vrt_event("ORACLE double-resume awaiter %d continued while not waiting", i);
+  me.state = F_RUNNING;
+  me.resumes = me.resumes + 1;
+  int e = w->ex.current();
+  vrt_event("aresumed %d e%d %d", i, e, got);
+  if (e != me.exec) vrt_event("ORACLE wrong-executor awaiter %d resumed on e%d, bound to e%d", i, e, me.exec);
+  if (got != expect) vrt_event("ORACLE wrong-value awaiter %d got %d expected %d", i, got, expect);
+  me.state = F_DONE;
+  vrt_event("adone %d", i);
+  co_return;
+}
+
+static void run_await(uint64_t seed) {
+  AWorld* w = new AWorld;
+  Rng rng(seed);
+  int npools = (int)rng.below(3);
+  int n = 1 + (int)rng.below(4);
+  std::vector<int> sets;
+  for (int i = 0; i < n; ++i) {
+    w->inst.emplace_back(new AInst);
+    AInst& a = *w->inst.back();
+    a.exec = (int)rng.below(npools + 1);
+    a.kind = (int)rng.below(3);
+    a.exec2 = (int)rng.below(npools + 2) - 1;
+    a.future = a.promise.get_future();
+    if (a.kind != 0) sets.push_back(i);
+  }
+  int nclients = 1 + (int)rng.below(2);
+  w->clients.resize(nclients);
+  for (int i : sets) w->clients[rng.below(nclients)].push_back(i);
+  bool early = rng.below(3) == 0;   // set the futures before the coroutines start
+  vrt_unname_all();
+  vrt_begin(seed);
+  printf("RUN %lu mode=await awaiters=%d pools=%d clients=%d\n", (unsigned long)seed, n, npools, nclients);
+  w->ex.start(npools, rng);
+  auto setter = [w](int i) {
+    vrt_event("call fset %d %d", i, 7 + i);
+    w->inst[i]->promise.set_value(7 + i);
+    vrt_event("ret fset");
+  };
+  if (early)
+    for (auto& c : w->clients)
+      for (int i : c) setter(i);
+  for (int i = 0; i < n; ++i) {
+    vrt_event("aspawn %d e%d k%d x%d", i, w->inst[i]->exec, w->inst[i]->kind, w->inst[i]->exec2);
+    w->ex.at(w->inst[i]->exec).submit(a_outer(w, i));
+  }
+  {
+    std::vector<std::thread> ts;
+    for (auto& c : w->clients) {
+      ts.emplace_back([&, early] {
+        for (int i : c) {
+          if (rng.below(2)) sched_yield();
+          if (!early) setter(i);
+        }
+      });
+    }
+    for (auto& t : ts) t.join();
+  }
+  for (int round = 0; round < 6; ++round) usleep(1000);
+  for (int i = 0; i < n; ++i) {
+    AInst& a = *w->inst[i];
+    if (a.state != F_DONE) vrt_event("ORACLE lost awaiter %d never resumed although what it awaits completed", i);
+    else if (a.resumes != 1) vrt_event("ORACLE resume-count awaiter %d resumed %d times", i, a.resumes);
+  }
+  w->ex.stop();
+  vrt_event("stats steps %lu switches %lu", vrt_steps(), vrt_switches());
+  vrt_end();
+  vrt_dump(stdout);
+  delete w;
+}
+
 int main(int argc, char** argv) {
   std::string mode = argc > 1 ? argv[1] : "futex";
   if (argc > 3 && !strcmp(argv[2], "corpus")) {
@@ -494,6 +846,8 @@ int main(int argc, char** argv) {
   for (int i = 0; i < nruns; ++i) {
     uint64_t seed = seed0 + i;
     if (mode == "futex") run_futex(seed, nullptr);
+    else if (mode == "cancel") run_cancel(seed);
+    else if (mode == "await") run_await(seed);
     else return 2;
   }
   return 0;
